@@ -1,4 +1,6 @@
-(* C04 — reference counter: every execution is linearizable to the saturating counter. *)
+(* C04 — reference counter: every execution is linearizable to the saturating counter; no signed overflow
+   when the initial value plus the number of retains fits the C type; exactly one release observes zero when
+   the scripts contain enough releases. *)
 From MV Require Import C04.Model.
 Local Open Scope Z_scope.
 
@@ -23,25 +25,100 @@ Proof. intros H. destruct ops; simpl; [reflexivity|]. destruct (Z.eqb_spec v 0);
 Lemma rseg_rest_nonzero v ops : v <> 0 -> rseg_rest v ops = ops.
 Proof. intros H. destruct ops; simpl; [reflexivity|]. destruct (Z.eqb_spec v 0); [contradiction|reflexivity]. Qed.
 
-Record RInv (v0 : Z) (s : rsys) : Prop := {
+(* ------------------------------------------------------------------ *)
+(* counting operations: per script, over the threads, in the linearisation *)
+Definition rop_eqb (a b : rop) : bool := match a, b with Retain, Retain | Release, Release => true | _, _ => false end.
+Fixpoint cnt (o : rop) (l : list rop) : nat :=
+  match l with [] => 0 | x :: r => (if rop_eqb o x then 1 else 0) + cnt o r end%nat.
+Fixpoint tsum (n : nat) (f : nat -> nat) : nat :=
+  match n with O => 0 | S m => tsum m f + f m end%nat.
+(* number of operations [o] in the scripts of the threads 0 .. n-1 *)
+Definition total (o : rop) (n : nat) (scripts : nat -> list rop) : nat := tsum n (fun t => cnt o (scripts t)).
+Definition remaining (o : rop) (s : rsys) : nat := tsum (r_n s) (fun t => cnt o (r_ops (r_thr s t))).
+
+Lemma cnt_app o a b : cnt o (a ++ b) = (cnt o a + cnt o b)%nat.
+Proof. induction a as [|x a IH]; simpl; [reflexivity|]. rewrite IH. lia. Qed.
+
+Lemma tsum_ext n f g : (forall u, (u < n)%nat -> f u = g u) -> tsum n f = tsum n g.
+Proof.
+  induction n as [|m IH]; intros H; simpl; [reflexivity|].
+  rewrite (IH (fun u Hu => H u (Nat.lt_lt_succ_r _ _ Hu))), (H m (Nat.lt_succ_diag_r m)). reflexivity.
+Qed.
+Lemma tsum_zero n f : (forall u, (u < n)%nat -> f u = 0%nat) -> tsum n f = 0%nat.
+Proof.
+  induction n as [|m IH]; intros H; simpl; [reflexivity|].
+  rewrite (IH (fun u Hu => H u (Nat.lt_lt_succ_r _ _ Hu))), (H m (Nat.lt_succ_diag_r m)). reflexivity.
+Qed.
+Lemma tsum_upd {A} (g : A -> nat) (f : nat -> A) n t x : (t < n)%nat ->
+  (tsum n (fun u => g (upd f t x u)) + g (f t) = tsum n (fun u => g (f u)) + g x)%nat.
+Proof.
+  induction n as [|m IH]; intros H; [lia|]. simpl.
+  destruct (Nat.eq_dec t m) as [E|NE].
+  - subst t. rewrite upd_same.
+    rewrite (tsum_ext m (fun u => g (upd f m x u)) (fun u => g (f u))).
+    + lia.
+    + intros u Hu. rewrite upd_other by lia. reflexivity.
+  - assert (Hm : (t < m)%nat) by lia. specialize (IH Hm).
+    rewrite (upd_other f t m x) by lia. lia.
+Qed.
+
+Lemma remaining_upd o s t x : (t < r_n s)%nat ->
+  (tsum (r_n s) (fun u => cnt o (r_ops (upd (r_thr s) t x u))) + cnt o (r_ops (r_thr s t))
+   = remaining o s + cnt o (r_ops x))%nat.
+Proof. intros Ht. unfold remaining. apply (tsum_upd (fun y => cnt o (r_ops y)) (r_thr s) (r_n s) t x Ht). Qed.
+
+Lemma rseg_split o ref ops :
+  (cnt o (map fst (snd (rseg ref ops))) + cnt o (rseg_rest ref ops) = cnt o ops)%nat.
+Proof.
+  induction ops as [|x r IH]; simpl; [reflexivity|].
+  destruct (ref =? 0).
+  - destruct (rseg ref r) as [ns ls]. simpl in *. lia.
+  - simpl. reflexivity.
+Qed.
+Lemma rseg_rest_le o ref ops : (cnt o (rseg_rest ref ops) <= cnt o ops)%nat.
+Proof. pose proof (rseg_split o ref ops). lia. Qed.
+
+(* ------------------------------------------------------------------ *)
+Record RInv (n : nat) (v0 : Z) (scripts : nat -> list rop) (s : rsys) : Prop := {
+  ri_n : r_n s = n;
   ri_lin : rspec_run v0 (map fst (r_lin s)) = (r_ref s, map snd (r_lin s));
   ri_cas : forall t v des, r_pc (r_thr s t) = RCas v des ->
            v <> 0 /\ exists o rest, r_ops (r_thr s t) = o :: rest /\ des = rdes o v;
+  ri_fin : forall t, r_pc (r_thr s t) = RFin \/ r_pc (r_thr s t) = RDone -> r_ops (r_thr s t) = [];
+  (* every operation of every script is either linearised or still pending *)
+  ri_cons : forall o, (cnt o (map fst (r_lin s)) + remaining o s = total o n scripts)%nat;
+  (* the counter can still grow by at most the pending retains *)
+  ri_bound : r_ref s + Z.of_nat (remaining Retain s) <= v0 + Z.of_nat (total Retain n scripts);
+  ri_ovf : v0 + Z.of_nat (total Retain n scripts) <= ref_max -> r_ovf s = 0%nat;
 }.
 
-Lemma rstep_inv P v0 s t ch s' l : RInv v0 s -> rstep P s t ch = Some (s', l) -> RInv v0 s'.
+Ltac r_other Hx t :=
+  let u := fresh "u" in
+  intros u; intros; unfold upd in *; destruct (Nat.eqb_spec u t); subst; simpl in *;
+  [ try discriminate | eapply Hx; eauto ].
+
+Lemma rstep_inv P n v0 scripts s t ch s' l :
+  RInv n v0 scripts s -> rstep P s t ch = Some (s', l) -> RInv n v0 scripts s'.
 Proof.
-  intros [Hlin Hcas] Hs. unfold rstep in Hs.
-  destruct (Nat.leb (r_n s) t); [discriminate|].
+  intros [Hn Hlin Hcas Hfin Hcons Hbound Hovf] Hs. unfold rstep in Hs.
+  destruct (Nat.leb_spec (r_n s) t) as [|Ht]; [discriminate|].
   destruct (r_pc (r_thr s t)) as [|v des| |] eqn:Epc.
   - (* plain segment *)
     destruct (rseg (r_ref s) (r_ops (r_thr s t))) as [ns ls] eqn:Eseg.
-    inversion Hs; subst; clear Hs. constructor; simpl.
+    inversion Hs; subst; clear Hs.
+    pose proof (fun o => rseg_split o (r_ref s) (r_ops (r_thr s t))) as Hsplit. rewrite Eseg in Hsplit. simpl in Hsplit.
+    assert (Hrem' : forall o pc', (tsum (r_n s) (fun u => cnt o (r_ops (upd (r_thr s) t
+                       {| r_pc := pc'; r_ops := rseg_rest (r_ref s) (r_ops (r_thr s t)); r_pend := [] |} u)))
+                     + cnt o (r_ops (r_thr s t)) = remaining o s + cnt o (rseg_rest (r_ref s) (r_ops (r_thr s t))))%nat).
+    { intros o pc'.
+      exact (remaining_upd o s t {| r_pc := pc'; r_ops := rseg_rest (r_ref s) (r_ops (r_thr s t)); r_pend := [] |} Ht). }
+    constructor; simpl.
+    + reflexivity.
     + rewrite map_app, rspec_run_app, Hlin.
       destruct (Z.eq_dec (r_ref s) 0) as [Z0|NZ].
       * rewrite Z0 in *. pose proof (rseg_zero (r_ops (r_thr s t))) as Hz. rewrite Eseg in Hz. simpl in Hz.
         rewrite Hz. now rewrite map_app.
-      * pose proof (rseg_nonzero _ (r_ops (r_thr s t)) NZ) as Hn. rewrite Eseg in Hn. simpl in Hn. subst ls.
+      * pose proof (rseg_nonzero _ (r_ops (r_thr s t)) NZ) as Hnz. rewrite Eseg in Hnz. simpl in Hnz. subst ls.
         simpl. now rewrite !app_nil_r.
     + intros u v des Hu. unfold upd in Hu. destruct (Nat.eqb_spec u t); subst; simpl in *.
       * destruct (rseg_rest (r_ref s) (r_ops (r_thr s t))) as [|o rest] eqn:Er; [discriminate|].
@@ -50,31 +127,100 @@ Proof.
         { intro Z0. rewrite Z0 in Er. clear -Er. induction (r_ops (r_thr s t)); simpl in Er; [discriminate|auto]. }
         split; [assumption|]. exists o, rest. rewrite upd_same. simpl. split; reflexivity.
       * unfold upd. destruct (Nat.eqb_spec u t); [contradiction|]. eauto.
+    + intros u Hu. unfold upd in *. destruct (Nat.eqb_spec u t); subst; simpl in *; [|now apply Hfin].
+      destruct (rseg_rest (r_ref s) (r_ops (r_thr s t))); [reflexivity|]. destruct Hu; discriminate.
+    + intros o. unfold remaining at 1. simpl. rewrite map_app, cnt_app.
+      specialize (Hrem' o (match rseg_rest (r_ref s) (r_ops (r_thr s t)) with
+                           | [] => RFin | o0 :: _ => RCas (r_ref s) (rdes o0 (r_ref s)) end)).
+      specialize (Hsplit o). specialize (Hcons o). lia.
+    + unfold remaining at 1. simpl.
+      specialize (Hrem' Retain (match rseg_rest (r_ref s) (r_ops (r_thr s t)) with
+                                | [] => RFin | o0 :: _ => RCas (r_ref s) (rdes o0 (r_ref s)) end)).
+      pose proof (rseg_rest_le Retain (r_ref s) (r_ops (r_thr s t))). lia.
+    + intros Hfit. specialize (Hovf Hfit).
+      destruct (rseg_rest (r_ref s) (r_ops (r_thr s t))) as [|o rest] eqn:Er; [assumption|].
+      destruct o; simpl; [|assumption].
+      destruct (Z.leb_spec ref_max (r_ref s)) as [Hge|]; [|assumption]. exfalso.
+      (* a retain is pending in this thread, so the counter is below the bound *)
+      assert (Hone : (1 <= cnt Retain (r_ops (r_thr s t)))%nat).
+      { pose proof (rseg_rest_le Retain (r_ref s) (r_ops (r_thr s t))) as Hle. rewrite Er in Hle. simpl in Hle. lia. }
+      assert (Hle : (cnt Retain (r_ops (r_thr s t)) <= remaining Retain s)%nat).
+      { pose proof (remaining_upd Retain s t {| r_pc := RSeg; r_ops := []; r_pend := [] |} Ht) as Hu.
+        simpl in Hu. lia. }
+      lia.
   - (* compare-exchange *)
     destruct (Hcas t v des Epc) as (NZ & o & rest & Eops & Edes).
     rewrite Eops in Hs.
+    assert (Hrem : forall o' pc' pend, (tsum (r_n s) (fun u => cnt o' (r_ops (upd (r_thr s) t
+                       {| r_pc := pc'; r_ops := rest; r_pend := pend |} u)))
+                     + cnt o' (o :: rest) = remaining o' s + cnt o' rest)%nat).
+    { intros o' pc' pend. rewrite <- Eops.
+      exact (remaining_upd o' s t {| r_pc := pc'; r_ops := rest; r_pend := pend |} Ht). }
     destruct (Z.eqb_spec (r_ref s) v) as [Eq|Ne]; inversion Hs; subst; clear Hs; constructor; simpl.
+    + reflexivity.
     + rewrite map_app, rspec_run_app, Hlin. simpl. unfold rspec.
       destruct (Z.eqb_spec (r_ref s) 0); [contradiction|]. now rewrite map_app.
     + intros u v des Hu. unfold upd in Hu. destruct (Nat.eqb_spec u t); subst; simpl in *; [discriminate|].
       unfold upd. destruct (Nat.eqb_spec u t); [contradiction|]. eauto.
+    + intros u Hu. unfold upd in *. destruct (Nat.eqb_spec u t); subst; simpl in *; [|now apply Hfin].
+      destruct Hu; discriminate.
+    + intros o'. unfold remaining at 1. simpl. rewrite map_app, cnt_app. simpl.
+      specialize (Hrem o' RSeg [(rnote o, rdes o (r_ref s))]). specialize (Hcons o'). simpl in Hrem. lia.
+    + unfold remaining at 1. simpl.
+      specialize (Hrem Retain RSeg [(rnote o, rdes o (r_ref s))]). simpl in Hrem.
+      destruct o; simpl in *; lia.
+    + assumption.
+    + reflexivity.
     + assumption.
     + intros u v' des' Hu. unfold upd in Hu. destruct (Nat.eqb_spec u t); subst; simpl in *; [discriminate|].
       unfold upd. destruct (Nat.eqb_spec u t); [contradiction|]. eauto.
-  - inversion Hs; subst; clear Hs; constructor; simpl; [assumption|].
-    intros u v des Hu. unfold upd in Hu. destruct (Nat.eqb_spec u t); subst; simpl in *; [discriminate|].
-    unfold upd. destruct (Nat.eqb_spec u t); [contradiction|]. eauto.
+    + intros u Hu. unfold upd in *. destruct (Nat.eqb_spec u t); subst; simpl in *; [|now apply Hfin].
+      destruct Hu; discriminate.
+    + intros o'. unfold remaining at 1. simpl.
+      rewrite (tsum_ext (r_n s) _ (fun u => cnt o' (r_ops (r_thr s u)))); [apply Hcons|].
+      intros u Hu. unfold upd. destruct (Nat.eqb_spec u t); subst; simpl; [rewrite Eops|]; reflexivity.
+    + unfold remaining at 1. simpl.
+      rewrite (tsum_ext (r_n s) _ (fun u => cnt Retain (r_ops (r_thr s u)))); [apply Hbound|].
+      intros u Hu. unfold upd. destruct (Nat.eqb_spec u t); subst; simpl; [rewrite Eops|]; reflexivity.
+    + assumption.
+  - (* exit *)
+    inversion Hs; subst; clear Hs; constructor; simpl.
+    + reflexivity.
+    + assumption.
+    + intros u v des Hu. unfold upd in Hu. destruct (Nat.eqb_spec u t); subst; simpl in *; [discriminate|].
+      unfold upd. destruct (Nat.eqb_spec u t); [contradiction|]. eauto.
+    + intros u Hu. unfold upd in *. destruct (Nat.eqb_spec u t); subst; simpl in *; [|now apply Hfin].
+      apply Hfin. left. assumption.
+    + intros o'. unfold remaining at 1. simpl.
+      rewrite (tsum_ext (r_n s) _ (fun u => cnt o' (r_ops (r_thr s u)))); [apply Hcons|].
+      intros u Hu. unfold upd. destruct (Nat.eqb_spec u t); subst; simpl; reflexivity.
+    + unfold remaining at 1. simpl.
+      rewrite (tsum_ext (r_n s) _ (fun u => cnt Retain (r_ops (r_thr s u)))); [apply Hbound|].
+      intros u Hu. unfold upd. destruct (Nat.eqb_spec u t); subst; simpl; reflexivity.
+    + assumption.
   - discriminate.
 Qed.
+
+Lemma rinit_inv n v0 scripts : RInv n v0 scripts (rinit n v0 scripts).
+Proof.
+  constructor; simpl.
+  - reflexivity.
+  - reflexivity.
+  - intros; discriminate.
+  - intros t [H|H]; discriminate.
+  - intros o. unfold remaining, total. simpl. lia.
+  - unfold remaining, total. simpl. lia.
+  - intros _. reflexivity.
+Qed.
+
+Theorem refcnt_invariants P n v0 scripts sched :
+  RInv n v0 scripts (exec rsys (rstep P) (rinit n v0 scripts) sched).
+Proof. apply inv_exec; [|apply rinit_inv]. intros; eapply rstep_inv; eauto. Qed.
 
 Theorem refcnt_linearizable_all P n v0 scripts sched :
   let s := exec rsys (rstep P) (rinit n v0 scripts) sched in
   rspec_run v0 (map fst (r_lin s)) = (r_ref s, map snd (r_lin s)).
-Proof.
-  intros s. apply (ri_lin v0 s). subst s. apply inv_exec.
-  - intros; eapply rstep_inv; eauto.
-  - constructor; simpl; [reflexivity|]. intros; discriminate.
-Qed.
+Proof. intros s. apply (ri_lin n v0 scripts s). apply refcnt_invariants. Qed.
 
 (* the sequential counter: once zero, always zero and every later operation is refused;
    a result 0 (a release observing zero) happens at most once *)
@@ -107,10 +253,114 @@ Proof.
   pose proof (rspec_zero_once v0 (map fst (r_lin s)) H0) as [H1 H2]. rewrite H in H1, H2. auto.
 Qed.
 
+(* no signed overflow: the counter stays inside the range of the C type, and v + 1 is never computed at
+   INT_MAX, when the initial value plus the number of retains in the scripts fits *)
+Theorem refcnt_in_range_all P n v0 scripts sched : 0 < v0 ->
+  v0 + Z.of_nat (total Retain n scripts) <= ref_max ->
+  let s := exec rsys (rstep P) (rinit n v0 scripts) sched in
+  r_ovf s = 0%nat /\ 0 <= r_ref s <= ref_max.
+Proof.
+  intros Hv Hfit s. pose proof (refcnt_invariants P n v0 scripts sched) as I. fold s in I.
+  split; [apply (ri_ovf _ _ _ _ I Hfit)|].
+  split; [apply (refcnt_single_zero_all P n v0 scripts sched Hv)|].
+  pose proof (ri_bound _ _ _ _ I). lia.
+Qed.
+
+(* with enough releases the sequential counter does reach zero: exactly one result is 0 *)
+Lemma rspec_enough ops : forall v, 0 < v ->
+  v + Z.of_nat (cnt Retain ops) <= Z.of_nat (cnt Release ops) ->
+  count_occ Z.eq_dec (snd (rspec_run v ops)) 0%Z = 1%nat /\ fst (rspec_run v ops) = 0.
+Proof.
+  induction ops as [|o r IH]; intros v Hv Hen; simpl in *; [lia|].
+  unfold rspec. destruct (Z.eqb_spec v 0) as [Z0|NZ]; [lia|].
+  destruct o; simpl in *.
+  - destruct (IH (v + 1)) as [I1 I2]; [lia|lia|].
+    destruct (rspec_run (v + 1) r) as [v2 xs]. simpl in *.
+    destruct (Z.eq_dec (v + 1) 0); [lia|]. split; assumption.
+  - destruct (Z.eq_dec (v - 1) 0) as [D0|DN].
+    + rewrite D0. rewrite rspec_zero. simpl. rewrite count_minus1. split; reflexivity.
+    + destruct (IH (v - 1)) as [I1 I2]; [lia|lia|].
+      destruct (rspec_run (v - 1) r) as [v2 xs]. simpl in *.
+      destruct (Z.eq_dec (v - 1) 0); [lia|]. split; assumption.
+Qed.
+
+(* 'exactly one, given enough releases': when every thread has finished its script and the scripts contain at
+   least (initial value + number of retains) releases, exactly one release has observed zero and the counter
+   is zero *)
+Theorem refcnt_exactly_one_zero_all P n v0 scripts sched : 0 < v0 ->
+  v0 + Z.of_nat (total Retain n scripts) <= Z.of_nat (total Release n scripts) ->
+  let s := exec rsys (rstep P) (rinit n v0 scripts) sched in
+  (forall t, (t < n)%nat -> r_pc (r_thr s t) = RDone) ->
+  count_occ Z.eq_dec (map snd (r_lin s)) 0%Z = 1%nat /\ r_ref s = 0.
+Proof.
+  intros Hv Hen s Hdone. pose proof (refcnt_invariants P n v0 scripts sched) as I. fold s in I.
+  assert (Hrem : forall o, remaining o s = 0%nat).
+  { intros o. unfold remaining. rewrite (ri_n _ _ _ _ I). apply tsum_zero. intros u Hu.
+    rewrite (ri_fin _ _ _ _ I u); [reflexivity|]. right. now apply Hdone. }
+  pose proof (ri_cons _ _ _ _ I Retain) as C1. pose proof (ri_cons _ _ _ _ I Release) as C2.
+  rewrite Hrem in C1, C2.
+  pose proof (rspec_enough (map fst (r_lin s)) v0 Hv) as E. rewrite (ri_lin _ _ _ _ I) in E. simpl in E.
+  apply E. lia.
+Qed.
+
+(* the loop body of the C functions, as a function of the value read (regenerated from the C text on every
+   run), is what drives the model's step: a pending operation is refused exactly when rbody says None, and
+   otherwise the thread stops at a compare-exchange with rbody's expected / desired values, whose success
+   returns rbody's result *)
+Lemma rbody_drives_rstep P s t o rest : (t < r_n s)%nat ->
+  r_pc (r_thr s t) = RSeg -> r_ops (r_thr s t) = o :: rest ->
+  exists s' notes, rstep P s t 0%nat = Some (s', LPlain notes) /\
+  match rbody o (r_ref s) with
+  | None => In (o, -1) (r_lin s') /\ r_ref s' = r_ref s
+  | Some (e, d, res) =>
+    r_pc (r_thr s' t) = RCas e d /\ r_ops (r_thr s' t) = o :: rest /\ r_lin s' = r_lin s /\
+    (r_ref s' = e ->
+     exists s'' mo, rstep P s' t 0%nat = Some (s'', LEv (Ev OCasS ref_cell mo e d 1)) /\
+                    r_ref s'' = d /\ r_lin s'' = r_lin s' ++ [(o, res)])
+  end.
+Proof.
+  intros Ht Epc Eops. unfold rstep at 1. destruct (Nat.leb_spec (r_n s) t) as [|_]; [lia|].
+  rewrite Epc, Eops. unfold rbody. simpl.
+  destruct (Z.eqb_spec (r_ref s) 0) as [Z0|NZ].
+  - destruct (rseg (r_ref s) rest) as [ns ls] eqn:E.
+    eexists. eexists. split; [reflexivity|]. simpl. split; [|reflexivity].
+    apply in_or_app. right. left. reflexivity.
+  - eexists. eexists. split; [reflexivity|]. simpl. rewrite upd_same. simpl.
+    split; [reflexivity|]. split; [reflexivity|]. split; [now rewrite app_nil_r|].
+    intros _. unfold rstep. simpl. destruct (Nat.leb_spec (r_n s) t) as [|_]; [lia|].
+    rewrite upd_same. simpl. rewrite Z.eqb_refl.
+    eexists. eexists. split; [reflexivity|]. simpl. split; reflexivity.
+Qed.
+
+Definition ref_example_params : params :=
+  {| mo_spin_tas := Acq; mo_spin_clear := Rel; mo_sync_cas := Acq; mo_sync_store := Rel;
+     mo_once_cas := Rlx; mo_once_store := Rel; mo_once_load := Acq; mo_ref_cas := Rlx |}.
+Definition ref_example_scripts (t : nat) : list rop :=
+  if Nat.eqb t 0 then [Retain; Release] else if Nat.eqb t 1 then [Release; Release] else [].
+
 Example refcnt_nonvacuous :
-  let P := {| mo_spin_tas := Acq; mo_spin_clear := Rel; mo_sync_cas := Acq; mo_sync_store := Rel;
-              mo_once_cas := Rlx; mo_once_store := Rel; mo_once_load := Acq; mo_ref_cas := Rlx |} in
-  let s := exec rsys (rstep P) (rinit 2 1 (fun t => if Nat.eqb t 0 then [Retain; Release] else [Release; Release]))
+  let s := exec rsys (rstep ref_example_params) (rinit 2 1 ref_example_scripts)
              [(0,0);(1,0);(1,0);(0,0);(0,0);(1,0)]%nat in
   map snd (r_lin s) = [0; -1; -1; -1] /\ r_ref s = 0.
 Proof. vm_compute. split; reflexivity. Qed.
+
+(* the hypotheses of refcnt_exactly_one_zero_all and refcnt_in_range_all are met by a run in which both threads
+   finish: 1 + 1 retain <= 3 releases, 1 + 1 <= ref_max *)
+Example refcnt_exactly_one_nonvacuous :
+  let s := exec rsys (rstep ref_example_params) (rinit 2 1 ref_example_scripts)
+             [(0,0);(0,0);(0,0);(0,0);(0,0);(0,0);(1,0);(1,0);(1,0);(1,0);(1,0);(1,0);(0,0);(1,0)]%nat in
+  (forall t, (t < 2)%nat -> r_pc (r_thr s t) = RDone) /\
+  1 + Z.of_nat (total Retain 2 ref_example_scripts) <= Z.of_nat (total Release 2 ref_example_scripts) /\
+  1 + Z.of_nat (total Retain 2 ref_example_scripts) <= ref_max /\
+  map snd (r_lin s) = [2; 1; 0; -1].
+Proof.
+  vm_compute. split; [|split; [discriminate|split; [discriminate|reflexivity]]].
+  intros t Ht. destruct t as [|[|t]]; [reflexivity|reflexivity|lia].
+Qed.
+
+(* at INT_MAX the retain of the unchanged code computes INT_MAX + 1 (undefined): the ghost records it, so the
+   range hypothesis of refcnt_in_range_all cannot be dropped *)
+Example refcnt_overflow_at_int_max :
+  let s := exec rsys (rstep ref_example_params) (rinit 1 ref_max (fun _ => [Retain])) [(0,0)]%nat in
+  r_ovf s = 1%nat.
+Proof. vm_compute. reflexivity. Qed.
